@@ -806,7 +806,14 @@ def gen_path_case(rng, flavour=None, thorough=False):
     method = 'gn_model_analytic'
     if rng.random() < 0.2:
         method = rng.choice(['ggn_spectrally_separated', 'ggn_approx'])
-    tiny = method != 'gn_model_analytic' or flavour == 'raman'
+    srs = flavour == 'raman' or rng.random() < 0.12       # Raman solver on (also for plain fibres)
+    if not thorough and srs and method != 'gn_model_analytic':
+        # GGN on top of the Raman solver takes 10-20 s per path: thorough tier only
+        if flavour == 'raman':
+            method = 'gn_model_analytic'
+        else:
+            srs = False
+    tiny = method != 'gn_model_analytic' or srs
     # launched spectrum
     spectrum = None
     if tiny or rng.random() < 0.6 or flavour == 'multiband':
@@ -828,8 +835,8 @@ def gen_path_case(rng, flavour=None, thorough=False):
         spectrum = parts or None
     if spectrum is None and tiny:
         method = 'gn_model_analytic'
-    sim = {'raman_params': {'flag': flavour == 'raman' or (tiny and rng.random() < 0.3), 'result_spatial_resolution': 10e3,
-                            'solver_spatial_resolution': rng.choice([50, 100, 200])},
+    sim = {'raman_params': {'flag': srs, 'result_spatial_resolution': 10e3,
+                            'solver_spatial_resolution': rng.choice([50, 100, 200] if thorough else [200, 500])},
            'nli_params': {'method': method, 'dispersion_tolerance': 1, 'phase_shift_tolerance': 0.1,
                           'computed_channels': None}}
     return {'kind': 'path', 'flavour': flavour, 'eq': eq, 'topo': topo, 'src': src, 'dst': dst, 'spectrum': spectrum,
@@ -1052,6 +1059,8 @@ def elem_program(call, sel):
                     prob = prob or 'update applied to a foreign object inside the multiband amplifier'
                 ops.append(sop_lit(*prim_sop(log[i], sel)))
                 i += 1
+            if not ops:
+                prob = prob or 'an inner amplifier applied no update to a band that has channels'
             outs.append(z)
             amps.append(f'({fql(lo)}, {fql(hi)}, {listlit(ops)})')
         if not (i == len(log) - 1 and log[i]['op'] == 'mux'):
@@ -1297,11 +1306,14 @@ def build_cases(ctx, prop, n_hist, n_bad, nmax, maxops):
 def process_path(ctx, case, path_oracle_fn, sample_k, terms, meta):
     """drive one path case; returns False when gnpy refuses the generated network"""
     rng = ctx.rng
+    t0 = time.time()
     try:
         res = drive_path(case)
-    except Exception as e:       # a network the generator produced but gnpy cannot design: not a case
+    except Exception as e:       # a network the generator produced but gnpy cannot design / propagate: not a case
         ctx.count('path_rejected_' + type(e).__name__)
         return False
+    finally:
+        ctx.extra.setdefault('path_seconds', {}).setdefault(case['flavour'], []).append(round(time.time() - t0, 2))
     if res is None:
         ctx.count('path_no_route')
         return False
